@@ -105,6 +105,21 @@ authorityKeyIdentifier = none
     sh(["openssl", "x509", "-req", "-in", o("valided.csr"), "-CA", o("ca4.pem"), "-CAkey", o("ca4.key"), "-set_serial", "77", "-days", "3650", "-extfile", ext, "-out", o("valided.pem")])
     os.remove(o("valided.csr"))
     assert "OK" in sh(["openssl", "verify", "-CAfile", o("ca4.pem"), o("valided.pem")])
+    # a fifth root whose PEM body has no short last line: DER length 48k, 48k-1 or 48k-2 gives k full 64-character base64 lines
+    # (a hand-rolled PEM reader that takes "the first short line" for the end of the body never finds one)
+    sh(["openssl", "genrsa", "-out", o("ca5.key"), "2048"])
+    for pad in range(0, 64):
+        sh(["openssl", "req", "-x509", "-key", o("ca5.key"), "-out", o("ca5.pem"), "-days", "3650", "-set_serial", "5",
+            "-subj", "/CN=verif ca5 root " + "x" * pad, "-addext", "basicConstraints=critical,CA:TRUE", "-addext", "keyUsage=critical,keyCertSign,cRLSign"])
+        sh(["openssl", "x509", "-in", o("ca5.pem"), "-outform", "DER", "-out", o("ca5.der")])
+        if os.path.getsize(o("ca5.der")) % 48 in (0, 46, 47):
+            break
+    else:
+        raise RuntimeError("no ca5 with a DER length of 48k-2..48k")
+    body = [l for l in open(o("ca5.pem")).read().splitlines() if l and not l.startswith("-----")]
+    assert all(len(l) == 64 for l in body), [len(l) for l in body]
+    leaf("validfull", "ca5", "localhost")
+    assert "OK" in sh(["openssl", "verify", "-CAfile", o("ca5.pem"), o("validfull.pem")])
     # sanity: openssl's own verdicts
     ok = sh(["openssl", "verify", "-CAfile", o("ca1.pem"), o("valid.pem")])
     assert "OK" in ok, ok
